@@ -392,15 +392,17 @@ Definition analyze (re : regex) : res (list (nat * nat) * anst) :=
 
 Section AnalyzeNext.
 Variable matchf : nat -> mstate -> mres.
+(* process_matching_substring with the nesting table fixed; abstract so that the theorems about the
+   iterator (Proofs/AnalyzeIterFacts.v) need only what they use of it *)
+Variable proc : mstate -> list N -> res (list mentry).
 Variable input : list N.
-Variable table : list (nat * nat).
 Let n := length input.
 
 (* analyze_entry, evaluated with the iterator fields as already updated *)
 Definition analyze_entry (next_sub : option (list N)) (prev : option nat) (s : mstate)
            (current : list N) : res aentry :=
   match next_sub, prev with
-  | None, Some _ => v <- process_matching_substring table s current ;; Ok (AMatch v)
+  | None, Some _ => v <- proc s current ;; Ok (AMatch v)
   | _, _ => Ok (ANon current)
   end.
 
@@ -441,4 +443,5 @@ Definition an_next_gen (st : anst) : res (option aentry * anst) :=
       end
   end.
 End AnalyzeNext.
-Definition an_next (prog : program) (input : list N) := an_next_gen (matches prog input) input.
+Definition an_next (prog : program) (input : list N) (table : list (nat * nat)) :=
+  an_next_gen (matches prog input) (process_matching_substring table) input.
